@@ -407,6 +407,12 @@ def check(tier):
                'grammar d;\nAA = /[z-a]x)/\nBB = /[0-9]+/\nCC = /b{2,1}/\nstart = AA BB CC;\n',
                'grammar d;\nAA = /(/\nBB = /[9-0]/\nCC = /c+/\nstart = AA BB CC;\n',
                'grammar d;\nAA = /a{4,2})/\nBB = /[0-9]+/\nstart = AA BB;\n']
+    # the same bracket written twice, its alternatives differing only in KIND (the literal "x" and the rule x; the token ID and the rule id):
+    # both occurrences must get one synthesised non-terminal, run after run
+    rspecs += ['grammar d;\nstart = ( "x" | x ) "a" | ( "x" | x ) "a" "b";\nx = "y";\n',
+               'grammar d;\nstart = { "x" | x } "a" { x | "x" };\nx = "y";\n',
+               'grammar d;\nstart = [ x "x" | "x" x ] "a" [ "x" x | x "x" ] "b";\nx = "y";\n',
+               'grammar d;\nstart = {{ "plus" | plus }} ";" {{ plus | "plus" }};\nplus = "+";\n']
     for _ in range(15 if tier == "quick" else 120):
         rspecs.append(S.gen_wellformed(rng))
     times = 12 if tier == "quick" else 40
